@@ -1162,7 +1162,10 @@ def instruction_variants(repo):
     return out
 
 
-def check_binop_arms(fn, variants):
+EMIT_ARM = {'Emit': r'write_escaped\(|Environment::<[^>]*>::format\('}
+
+
+def check_binop_arms(fn, variants, table=None):
     adj, preds = cfg(fn)
     fetch = [b for b, blk in fn['blocks'].items() if not blk['cleanup'] and re.search(r"Instructions::<[^>]*>::get\(", blk['term'])]
     dispatch = [b for b, blk in fn['blocks'].items() if not blk['cleanup'] and blk['term'].startswith('switchInt') and blk['term'].count('bb') >= 40]
@@ -1171,7 +1174,7 @@ def check_binop_arms(fn, variants):
     F, X = fetch[0], dispatch[0]
     targets = dict(re.findall(r'(\d+): (bb\d+)', fn['blocks'][X]['term']))
     out = []
-    for vname, opfn in BINOPS.items():
+    for vname, opfn in (table or BINOPS).items():
         if vname not in variants or str(variants.index(vname)) not in targets:
             out.append(dict(op=vname, verdict='unknown', conflict='no dispatch target for Instruction::%s' % vname))
             continue
@@ -1193,7 +1196,10 @@ def check_binop_arms(fn, variants):
             if any(re.match(r'_0 = ', st) for st in blk['stmts']):
                 continue
             _, callee = call_of(blk['term'])
-            is_op = bool(callee and re.match(r'(?:value::)?(?:ops::)?%s\(' % opfn, callee))
+            if table:
+                is_op = bool(callee and re.search(opfn, callee))
+            else:
+                is_op = bool(callee and re.match(r'(?:value::)?(?:ops::)?%s\(' % opfn, callee))
             calls += is_op
             for label, tgt in adj[b]:
                 if fn['blocks'][tgt]['term'] == 'return;':
@@ -1263,5 +1269,48 @@ def run_binops(prop, tier, seed):
     log('[%s] engine M (eval_impl binop arms): %s; native grid: %d operators, %d disagreeing' % (
         prop, ' '.join('%s=%s' % (r['op'], r['verdict']) for r in results), len(scen), len(bad)))
     ev['coverage'] = dict(queries=len(results), results=results, native_scenarios=len(scen), native_scenarios_failing=len(bad), function='Executor::eval_impl', check='binop_uses_ops')
+    ev['wall_s'] = round(time.time() - t0, 1)
+    return ev
+
+
+# ---------------------------------------------------------------------------------------------
+# eval_impl (C02): the print instruction hands its value to write_escaped / the formatter on every path
+# ---------------------------------------------------------------------------------------------
+def run_emit(prop, tier, seed):
+    t0 = time.time()
+    ev = dict(engine='M', violations=[], known_hits=[], problems=[], coverage={})
+    try:
+        mir = dump_mir(REPO, os.path.join(BUILD, 'mir'))
+        text = function_text(mir, EVAL_IMPL)
+        if text is None:
+            raise MirError('eval_impl not found in the MIR dump')
+        results = check_binop_arms(parse_function(text), instruction_variants(REPO), table=EMIT_ARM)
+    except MirError as e:
+        ev['problems'].append('engine M: %s' % e)
+        return ev
+    err = build_tool('vmexits')
+    if err:
+        ev['problems'].append('engine M: native scenario tool did not build: ' + err[-300:])
+        return ev
+    scen = [s for s in run_vmexits() if s['check'] == 'emit_escapes']
+    failing = [s for s in scen if not s['ok']]
+    for r in results:
+        if r['verdict'] == 'sat':
+            continue
+        if r['verdict'] != 'unsat':
+            ev['problems'].append('engine M: Emit arm: %s %s' % (r['verdict'], r.get('conflict', '')))
+            continue
+        if failing:
+            rp = os.path.join(nativelib.replay_dir(), '%s-M-emit.json' % prop)
+            json.dump(dict(engine='M', kind='eval_impl', check='emit_escapes', property=prop, mir_finding=r, scenarios=failing,
+                           how='bin/check %s --replay %s' % (prop, rp)), open(rp, 'w'), indent=1)
+            ev['violations'].append(dict(replay=rp, failed=[dict(desc='eval_impl Emit arm: a path prints without write_escaped / the formatter; native scenario %s: %s' % (
+                failing[0]['scenario'], failing[0]['detail'][:220]), loc='minijinja/src/vm/mod.rs eval_impl (MIR)')]))
+        else:
+            ev['problems'].append('engine M: Emit arm: a path reaches the next instruction without exactly one write_escaped/format call, but no native print scenario misbehaves')
+    if failing and all(r['verdict'] == 'sat' for r in results):
+        ev['problems'].append('engine M: native print scenario %s misbehaves (%s) although the Emit arm always goes through write_escaped / the formatter' % (failing[0]['scenario'], failing[0]['detail'][:200]))
+    log('[%s] engine M (eval_impl Emit arm): %s; %d native scenarios, %d misbehaving' % (prop, ' '.join('%s=%s' % (r['op'], r['verdict']) for r in results), len(scen), len(failing)))
+    ev['coverage'] = dict(queries=len(results), results=results, native_scenarios=len(scen), native_scenarios_failing=len(failing), function='Executor::eval_impl', check='emit_escapes')
     ev['wall_s'] = round(time.time() - t0, 1)
     return ev
